@@ -2,8 +2,10 @@
    Reads observation lines of `dist run` (see harness/src/bin/dist.rs) and prints
      <id> OK | <id> PROPFAIL <why> | <id> DIFF <why>
    PROPFAIL: the implementation's observations contradict the property, decided by the
-   checkers extracted from Coq (DistInst.chk_table / chk_bracket / chk_mono /
-   chk_roundtrip, exact tails from DistInst.word_table);
+   checker extracted from Coq (DistInst.check_C11_fails, proved sound in
+   C11.check_C11_sound: table in [0,1] and non-increasing, p-values inside the brackets of
+   the exact tails, p-values monotone, round trips) -- plus panics inside the property's
+   domain, which are not values and are reported by this driver directly;
    DIFF: the observations differ from the bit-exact binary64 model. *)
 open Dist_model
 
@@ -97,14 +99,10 @@ let process line =
     let bg_bits = List.map u64_of_string (split ',' (oget "bgf")) in
     let cells64 : F64.t cell list list = List.map (List.map (fun b -> CFin (f64_of_f32bits b))) m_bits in
     let bg64 = List.map f64_of_f32bits bg_bits in
-    (* scope of the property: finite non-wildcard cells, wildcard finite or -inf *)
+    (* scope of the property: finite non-wildcard cells, wildcard finite or -inf (decided in Coq) *)
     let finite32 b = Int64.logand b 0x7F800000L <> 0x7F800000L in
-    let in_scope =
-      mrows > 0 &&
-      List.for_all (fun r ->
-          List.length r = 5 &&
-          List.for_all finite32 (List.filteri (fun i _ -> i < 4) r) &&
-          (let w = List.nth r 4 in finite32 w || w = 0xFF800000L)) m_bits in
+    let mvals : F64.t list list = List.map (List.map f64_of_f32bits) m_bits in
+    let in_scope = c11_in_scope mvals bg64 in
     scope := in_scope;
     (match q_stage_a (List.map (List.map (fun b -> f64_cell (f64_of_f32bits b))) m_bits) with
      | Ok (off, _) ->
@@ -132,20 +130,6 @@ let process line =
            List.concat_map (fun (b, c) -> let v = f64_of_u64 b in List.init c (fun _ -> v)) runs in
          let impl_sf_bits = Array.make n_impl 0L in
          let _ = List.fold_left (fun i (b, c) -> Array.fill impl_sf_bits i c (canon64 b); i + c) 0 runs in
-         (match int_of_nat (f64_chk_table impl_sf_vals) with
-          | 0 -> ()
-          | code ->
-              (* name the offending entry (for the message only) *)
-              let bad = ref (-1) in
-              Array.iteri (fun i b -> if !bad < 0 then begin
-                  let v = Int64.float_of_bits b in
-                  if not (v >= 0.0 && v <= 1.0) then bad := i
-                  else if i + 1 < n_impl && not (Int64.float_of_bits impl_sf_bits.(i + 1) <= v) then bad := i + 1 end) impl_sf_bits;
-              let v = if !bad >= 0 then Int64.float_of_bits impl_sf_bits.(!bad) else nan in
-              if !bad = n_impl - 1 && v > 1.0 then
-                pf (Printf.sprintf "sf-last-entry-unclipped sf[%d]=%.17g > 1 (last entry of %d)" !bad v n_impl)
-              else if code = 1 then pf (Printf.sprintf "sf-range sf[%d]=%.17g outside [0,1]" !bad v)
-              else pf (Printf.sprintf "sf-monotone sf[%d]=%.17g above its predecessor" !bad v));
          let model_sf = Array.of_list (List.map u64_of_f64 d.d_sf) in
          if Array.length model_sf <> n_impl then
            df (Printf.sprintf "sf length %d model %d" n_impl (Array.length model_sf))
@@ -162,42 +146,18 @@ let process line =
          let canon_obs s = if s = "P" then "P" else show_u64 (canon64 (u64_of_string s)) in
          if canon_obs (oget "minp") <> show_res (f64_min_pvalue d) then
            df (Printf.sprintf "min_pvalue impl=%s model=%s" (oget "minp") (show_res (f64_min_pvalue d)));
-         let delta_ref = ref { qnum = Z0; qden = XH } in
-         (* ---------- pvalue probes ---------- *)
+         (* ---------- pvalue probes: replay, and collection of the observations ---------- *)
          let pr_bits = List.map u64_of_string (split ',' (get "pr")) in
          let pv_obs = split ',' (oget "pv") in
+         let nwords = List.fold_left (fun acc r ->
+             let k = List.length (List.filter (fun (c, b) -> finite32 c && Int64.logand b 0x7FFFFFFFL <> 0L)
+                                    (List.combine r bg_bits)) in
+             if acc > max_words then acc else acc * k) 1 m_bits in
+         let exact = in_scope && nwords <= max_words in
+         let budget = ref 2_500_000 in
+         let pv_list = ref [] and br_list = ref [] in   (* reversed *)
          if List.length pr_bits <> List.length pv_obs then df "pvalue: observation count"
-         else begin
-           let probes = List.combine pr_bits pv_obs in
-           let mono = ref [] in
-           (* exact side *)
-           let qcells = List.map (List.map (fun b -> f64_cell (f64_of_f32bits b))) m_bits in
-           let qbg = List.map (fun b -> f64_to_Q (f64_of_f32bits b)) bg_bits in
-           let nwords = List.fold_left (fun acc r ->
-               let k = List.length (List.filter (fun (c, b) -> finite32 c && Int64.logand b 0x7FFFFFFFL <> 0L)
-                                      (List.combine r bg_bits)) in
-               if acc > max_words then acc else acc * k) 1 m_bits in
-           let exact =
-             if in_scope && nwords <= max_words then
-               (match q_stage_a qcells with
-                | Ok (_, scale) when qle_bool scale { qnum = Z0; qden = XH } = false ->
-                    (* dyadic integers: cells over 2^k, weights over 2^j *)
-                    let me_cells = List.map (List.map (fun b -> f64_me (f64_of_f32bits b))) m_bits in
-                    let k = common_k (List.concat me_cells) in
-                    let zc = dy_cells k me_cells in
-                    let me_bg = List.map (fun b -> f64_me (f64_of_f32bits b)) bg_bits in
-                    let j = common_k me_bg in
-                    let zb = List.map (function Some me -> at_k j me | None -> Z0) me_bg in
-                    let qtab = if nwords <= 300 then Some (word_table qcells qbg) else None in
-                    Some (word_tableZ zc zb, k, j, scale, qtab)
-                | _ -> None)
-             else None in
-           lap "word_table";
-           let delta = mass_defect qbg (nat_of_int mrows) in
-           delta_ref := delta;
-           let wild_mass = (match List.nth_opt bg_bits 4 with Some b -> Int64.logand b 0x7FFFFFFFL <> 0L | None -> false) in
-           let wild_ninf = List.exists (fun r -> List.nth r 4 = 0xFF800000L) m_bits in
-           let budget = ref 2_500_000 in
+         else
            List.iteri (fun i (sb, po) ->
                let s64 = f64_of_f32bits sb in
                let mres = f64_pvalue d s64 in
@@ -206,46 +166,16 @@ let process line =
                if po = "P" then begin
                  if in_scope then pf (Printf.sprintf "pvalue-panic probe#%d score=%s" i (show_u64 sb))
                end else if not (is_nan32 sb) then begin
-                 let pvb = u64_of_string po in
-                 let pv64 = f64_of_u64 pvb in
-                 mono := (s64, pv64) :: !mono;
-                 (match exact with
-                  | Some (tab, k, j, scale, qtab) when finite32 sb && !budget > 0 ->
-                      budget := !budget - 2 * nwords;
-                      if is_nan64 pvb || Int64.logand pvb 0x7FF0000000000000L = 0x7FF0000000000000L then
-                        pf (Printf.sprintf "pvalue-range probe#%d pv=%s" i po)
-                      else begin
-                        let sq = f64_to_Q s64 and pq = f64_to_Q pv64 in
-                        let code = int_of_nat (chk_bracket_dy tab k j scale (z_of_int mrows) eps delta sq pq) in
-                        (match qtab with
-                         | Some qt ->
-                             if int_of_nat (chk_bracket qt scale (z_of_int mrows) eps delta sq pq) <> code then
-                               df (Printf.sprintf "model-selfcheck exact tails (integer and rational tables) disagree probe#%d" i)
-                         | None -> ());
-                        match code with
-                        | 0 -> ()
-                        | c ->
-                            let pvf = Int64.float_of_bits pvb in
-                            let sf_ = Int32.float_of_bits (Int64.to_int32 sb) in
-                            let dd = qdiv (qplus (qdiv (inject_Z (z_of_int mrows)) (q_of_ints 2 1)) (q_of_ints 1 1)) scale in
-                            let dq = float_of_q dd in
-                            let bound = float_of_q (tail_dy tab k j (z_of_int mrows) (if c = 1 then qplus sq dd else qminus sq dd)) in
-                            let label =
-                              if c = 2 && wild_mass && wild_ninf && pvf = 1.0 then "wildcard-mass below-minimum p-value 1.0 exceeds"
-                              else if c = 1 then "bracket-below" else "bracket-above" in
-                            pf (Printf.sprintf "%s probe#%d score=%.9g pvalue=%.17g %s exact tail %.17g at s%sd d=%.6g M=%d"
-                                  label i sf_ pvf (if c = 1 then "<" else ">") bound (if c = 1 then "+" else "-") dq mrows)
-                      end
-                  | _ -> ())
-               end) probes;
-           if not (f64_chk_mono !mono) then begin
-             (* a p-value above 1 can only be the unclipped last table entry *)
-             let above1 = List.exists (fun (_, po) -> po <> "P" && Int64.float_of_bits (u64_of_string po) > 1.0) probes in
-             pf ((if above1 then "sf-last-entry-unclipped " else "") ^ "pvalue-monotone a larger score got a larger p-value")
-           end
-         end;
+                 let pv64 = f64_of_u64 (u64_of_string po) in
+                 pv_list := (s64, pv64) :: !pv_list;
+                 if exact && finite32 sb && !budget > 0 then begin
+                   budget := !budget - 2 * nwords;
+                   br_list := (i, sb, po, (s64, pv64)) :: !br_list
+                 end
+               end) (List.combine pr_bits pv_obs);
          lap "probes";
-         (* ---------- score probes and round trips ---------- *)
+         (* ---------- score probes and round trips: replay and collection ---------- *)
+         let rt_list = ref [] in   (* reversed: (tag, i, pbits, sobs, robs, (p, rt)) *)
          let check_score tag i pbits sobs robs =
            let p64 = f64_of_u64 pbits in
            let ms = f64_score d p64 in
@@ -261,24 +191,8 @@ let process line =
            let p_in01 = (let v = Int64.float_of_bits pbits in v > 0.0 && v < 1.0) in
            if (sobs = "P" || robs = "P") then begin
              if in_scope && p_in01 then pf (Printf.sprintf "score-panic %s#%d p=%s" tag i (show_u64 pbits))
-           end else if not (f64_chk_roundtrip p64 (f64_of_u64 (u64_of_string robs))) &&
-                   not (chk_roundtrip_q eps !delta_ref (f64_to_Q p64) (f64_to_Q (f64_of_u64 (u64_of_string robs)))) then
-             begin
-               let scale_zero = (match q_stage_a (List.map (List.map (fun b -> f64_cell (f64_of_f32bits b))) m_bits) with
-                   | Ok (_, sc) -> qle_bool sc { qnum = Z0; qden = XH } | _ -> false) in
-               let inexact = (match f64_bsearch d p64 with
-                   | Ok x -> not (f64_index_exact d (z_of_int (int_of_nat x))) | _ -> false) in
-               let wild_mass = (match List.nth_opt bg_bits 4 with Some b -> Int64.logand b 0x7FFFFFFFL <> 0L | None -> false) in
-               let wild_ninf = List.exists (fun r -> List.nth r 4 = 0xFF800000L) m_bits in
-               let rtv = Int64.float_of_bits (u64_of_string robs) in
-               let label =
-                 if scale_zero then "scale-zero roundtrip"
-                 else if inexact then "unscale-inexact roundtrip"
-                 else if wild_mass && wild_ninf && rtv = 1.0 then "wildcard-mass roundtrip"
-                 else "roundtrip" in
-               pf (Printf.sprintf "%s %s#%d p=%.17g score=%.9g pvalue(score(p))=%.17g > p" label tag i
-                     (Int64.float_of_bits pbits) (Int32.float_of_bits (Int64.to_int32 (u64_of_string sobs))) rtv)
-             end
+           end else
+             rt_list := (tag, i, pbits, sobs, robs, (p64, f64_of_u64 (u64_of_string robs))) :: !rt_list
          in
          let ps_bits = List.map u64_of_string (split ',' (get "ps")) in
          let sc_obs = split ',' (oget "sc") in
@@ -290,8 +204,72 @@ let process line =
          List.iteri (fun i o ->
              match String.split_on_char ':' o with
              | [p; s; r] -> check_score "si" i (u64_of_string p) s r
-             | _ -> df "score: bad sx observation") (split ',' (oget "sx")));
-    lap "scores";
+             | _ -> df "score: bad sx observation") (split ',' (oget "sx"));
+         lap "scores";
+         (* ---------- the property, decided by the extracted checker ---------- *)
+         let pvl = List.rev !pv_list and brl = List.rev !br_list and rtl = List.rev !rt_list in
+         let fails = check_C11_fails mvals bg64 impl_sf_vals pvl
+             (List.map (fun (_, _, _, x) -> x) brl) (List.map (fun (_, _, _, _, _, x) -> x) rtl) in
+         lap "check_C11";
+         let wild_mass = (match List.nth_opt bg_bits 4 with Some b -> Int64.logand b 0x7FFFFFFFL <> 0L | None -> false) in
+         let wild_ninf = List.exists (fun r -> List.nth r 4 = 0xFF800000L) m_bits in
+         let qcells () = List.map (List.map (fun b -> f64_cell (f64_of_f32bits b))) m_bits in
+         List.iter (fun (kind, idx) ->
+             match int_of_nat kind, int_of_nat idx with
+             | (1 | 2) as code, _ ->
+                 (* name the offending entry (for the message only) *)
+                 let bad = ref (-1) in
+                 Array.iteri (fun i b -> if !bad < 0 then begin
+                     let v = Int64.float_of_bits b in
+                     if not (v >= 0.0 && v <= 1.0) then bad := i
+                     else if i + 1 < n_impl && not (Int64.float_of_bits impl_sf_bits.(i + 1) <= v) then bad := i + 1 end) impl_sf_bits;
+                 let v = if !bad >= 0 then Int64.float_of_bits impl_sf_bits.(!bad) else nan in
+                 if !bad = n_impl - 1 && v > 1.0 then
+                   pf (Printf.sprintf "sf-last-entry-unclipped sf[%d]=%.17g > 1 (last entry of %d)" !bad v n_impl)
+                 else if code = 1 then pf (Printf.sprintf "sf-range sf[%d]=%.17g outside [0,1]" !bad v)
+                 else pf (Printf.sprintf "sf-monotone sf[%d]=%.17g above its predecessor" !bad v)
+             | (3 | 4 | 5) as code, bi ->
+                 let (i, sb, po, _) = List.nth brl bi in
+                 let pvb = u64_of_string po in
+                 let pvf = Int64.float_of_bits pvb in
+                 let sf_ = Int32.float_of_bits (Int64.to_int32 sb) in
+                 if code = 5 then pf (Printf.sprintf "pvalue-range probe#%d pv=%s" i po)
+                 else begin
+                   (* the violated bound, recomputed for the message only *)
+                   let (bound, dq) =
+                     (match q_stage_a (c11_qm mvals) with
+                      | Ok (_, scale) ->
+                          let dd = qdiv (qplus (qdiv (inject_Z (z_of_int mrows)) (q_of_ints 2 1)) (q_of_ints 1 1)) scale in
+                          let sq = f64_to_Q (f64_of_f32bits sb) in
+                          let tab = word_tableZ (c11_zc mvals) (c11_zb bg64) in
+                          (float_of_q (tail_dy tab (c11_k mvals) (c11_j bg64) (z_of_int mrows)
+                                         (if code = 3 then qplus sq dd else qminus sq dd)), float_of_q dd)
+                      | _ -> (nan, nan)) in
+                   let label =
+                     if code = 4 && wild_mass && wild_ninf && pvf = 1.0 then "wildcard-mass below-minimum p-value 1.0 exceeds"
+                     else if code = 3 then "bracket-below" else "bracket-above" in
+                   pf (Printf.sprintf "%s probe#%d score=%.9g pvalue=%.17g %s exact tail %.17g at s%sd d=%.6g M=%d"
+                         label i sf_ pvf (if code = 3 then "<" else ">") bound (if code = 3 then "+" else "-") dq mrows)
+                 end
+             | 6, _ ->
+                 (* a p-value above 1 can only be the unclipped last table entry *)
+                 let above1 = List.exists (fun po -> po <> "P" && Int64.float_of_bits (u64_of_string po) > 1.0) pv_obs in
+                 pf ((if above1 then "sf-last-entry-unclipped " else "") ^ "pvalue-monotone a larger score got a larger p-value")
+             | 7, ri ->
+                 let (tag, i, pbits, sobs, robs, (p64, _)) = List.nth rtl ri in
+                 let scale_zero = (match q_stage_a (qcells ()) with
+                     | Ok (_, sc) -> qle_bool sc { qnum = Z0; qden = XH } | _ -> false) in
+                 let inexact = (match f64_bsearch d p64 with
+                     | Ok x -> not (f64_index_exact d (z_of_int (int_of_nat x))) | _ -> false) in
+                 let rtv = Int64.float_of_bits (u64_of_string robs) in
+                 let label =
+                   if scale_zero then "scale-zero roundtrip"
+                   else if inexact then "unscale-inexact roundtrip"
+                   else if wild_mass && wild_ninf && rtv = 1.0 then "wildcard-mass roundtrip"
+                   else "roundtrip" in
+                 pf (Printf.sprintf "%s %s#%d p=%.17g score=%.9g pvalue(score(p))=%.17g > p" label tag i
+                       (Int64.float_of_bits pbits) (Int32.float_of_bits (Int64.to_int32 (u64_of_string sobs))) rtv)
+             | k, i -> pf (Printf.sprintf "check_C11 kind=%d index=%d" k i)) fails);
     finish ()
   end
 
